@@ -230,3 +230,100 @@ Definition c17_run (u : list (N * N)) (ops : list sop) : out :=
   let U := mkU u in OList [run_mem U ops; run_fs U ops].
 
 Definition c17_spec_run (u : list (N * N)) (ops : list sop) : out := run_spec (mkU u) ops.
+
+(* ------------------------------------------------------------- loose objects *)
+(* storer.LooseObjectStorer: DeleteLooseObject / ForEachObjectHash.  An object
+   is present when it is loose or in a pack; SetEncodedObject always writes a
+   loose copy, UpdateObjectStorage a pack; DeleteLooseObject removes the loose
+   copy only (the object stays present when a pack holds it) and fails with
+   not-exist when there is no loose copy; ForEachObjectHash enumerates the loose
+   copies.  The layer below adds the two sets (loose, packed) to any of the
+   three state machines above; it is the same for the abstract store and for
+   the filesystem storer under every Options value (dotgit's objectList /
+   objectMap caches under ExclusiveAccess are not observable).
+   storage/memory has no loose objects: DeleteLooseObject is refused
+   (errNotSupported) and ForEachObjectHash enumerates every object. *)
+Inductive xop :=
+| XOp (o : sop)
+| XDelLoose (k : N)          (* DeleteLooseObject(hash of k) *)
+| XEachHash.                 (* ForEachObjectHash: the ids seen *)
+
+Record lw (St : Type) := mkLw { lw_st : St; lw_loose : list N; lw_packed : list N }.
+Arguments mkLw {St} _ _ _.
+Arguments lw_st {St} _.
+Arguments lw_loose {St} _.
+Arguments lw_packed {St} _.
+
+Definition lw_track (o : sop) (r : res) (lo pk : list N) : list N * list N :=
+  match o, r with
+  | SBase (OSetObj k), RNum _ => (nadd k lo, pk)
+  | SAddPack l, ROk => (lo, fold_right nadd pk l)
+  | _, _ => (lo, pk)
+  end.
+
+Section Loose.
+  Context {St : Type} (step : St -> sop -> St * res) (del : N -> St -> St).
+
+  Definition lw_step (w : lw St) (o : xop) : lw St * res :=
+    match o with
+    | XOp b =>
+      let '(s, r) := step (lw_st w) b in
+      let '(lo, pk) := lw_track b r (lw_loose w) (lw_packed w) in (mkLw s lo pk, r)
+    | XDelLoose k =>
+      if nmem k (lw_loose w)
+      then (mkLw (if nmem k (lw_packed w) then lw_st w else del k (lw_st w))
+                 (nrem k (lw_loose w)) (lw_packed w), ROk)
+      else (w, RErr ENotExist)
+    | XEachHash => (w, RIds (lw_loose w))
+    end.
+
+  Fixpoint run_xops (w : lw St) (ops : list xop) : lw St * list res :=
+    match ops with
+    | [] => (w, [])
+    | o :: r =>
+      let '(w1, x) := lw_step w o in
+      let '(w2, xs) := run_xops w1 r in (w2, x :: xs)
+    end.
+End Loose.
+
+Definition lw_init {St} (s : St) : lw St := mkLw s [] [].
+
+Definition fs_del_obj (k : N) (f : fstore) : fstore :=
+  mkFs (f_loose f) (f_packed f) (st_del_obj k (f_rest f)).
+
+Definition xspec_step (U : universe) := lw_step (spec_sstep U) st_del_obj.
+Definition xfs_step (U : universe) := lw_step (fs_step U) fs_del_obj.
+
+(* memory: no loose objects *)
+Definition xmem_step (U : universe) (s : store) (o : xop) : store * res :=
+  match o with
+  | XOp b => mem_step U s b
+  | XDelLoose _ => (s, RErr ENotSupported)
+  | XEachHash => (s, RIds (fm_keys (s_objs s)))
+  end.
+
+Fixpoint run_xmem (U : universe) (s : store) (ops : list xop) : store * list res :=
+  match ops with
+  | [] => (s, [])
+  | o :: r =>
+    let '(s1, x) := xmem_step U s o in
+    let '(s2, xs) := run_xmem U s1 r in (s2, x :: xs)
+  end.
+
+Definition xrun_spec (U : universe) (ops : list xop) : out :=
+  let '(w, xs) := run_xops (spec_sstep U) st_del_obj (lw_init st_empty) ops in
+  OList [OList (map o_res xs); o_snapshot (RRefs (s_refs (lw_st w))) (lw_st w)].
+
+Definition xrun_mem (U : universe) (ops : list xop) : out :=
+  let '(s, xs) := run_xmem U st_empty ops in
+  OList [OList (map o_res xs); o_snapshot (RRefs (s_refs s)) s].
+
+Definition xrun_fs (U : universe) (ops : list xop) : out :=
+  let '(w, xs) := run_xops (fs_step U) fs_del_obj (lw_init fs_empty) ops in
+  OList [OList (map o_res xs); o_snapshot (fs_iter_refs (lw_st w)) (f_rest (lw_st w))].
+
+(* correspondence entry points over the extended alphabet *)
+Definition c17_xrun (u : list (N * N)) (ops : list xop) : out :=
+  let U := mkU u in OList [xrun_mem U ops; xrun_fs U ops].
+
+Definition c17_spec_xrun (u : list (N * N)) (ops : list xop) : out := xrun_spec (mkU u) ops.
